@@ -55,3 +55,23 @@ Definition mismatches (cs : list case) : list Z :=
 
 (* diagnostics (used when developing): which side disagrees *)
 Definition diag (c : case) : bool * bool := (sem_ok c, fast_ok c).
+
+(* ---------- caseHelper.ConstMap of fast/switch.go: ALL constant case expressions with the address of their body
+   (used for the duplicate-case error only).  switchGotoMap must build its table from GotoMap (MiniGo.Fast.gotomap:
+   the constants BEFORE the first non-constant case expression), not from this map: C05_switch_constmap_refuted *)
+Fixpoint cm_es (ibody : nat) (es : list expr) : list (Z * nat) :=
+  match es with
+  | [] => []
+  | e :: r => (if econst e then [(eval e [], ibody)] else []) ++ cm_es ibody r
+  end.
+
+Fixpoint constmap (base : nat) (cs : clauses) : list (Z * nat) :=
+  match cs with
+  | CNil => []
+  | CCons k nb body _ rest =>
+      let iend := (base + 1 + bsize nb body + 1)%nat in
+      match k with
+      | CDefault => constmap iend rest
+      | CCase es => cm_es (base + 1)%nat es ++ constmap iend rest
+      end
+  end.
